@@ -28,9 +28,23 @@ struct WSrc {
     bool moved = false;
 };
 
+// user code that cannot throw (a noexcept move assignment): the same scheduling point and K_CALL event as
+// user_call, it takes its place in the numbering of the throw plan, but an index of the plan that falls on it
+// is ignored (the generator never aims a throw at it)
+inline void user_call_nothrow(long fid) noexcept
+{
+    if (!active()) return;
+    S().visible(K_CALL, nullptr);
+    plan().calls++;
+    S().emit(K_CALL, nullptr, fid);
+}
+
+// WPay has the shape of std::string / std::vector: a noexcept move assignment, a copy assignment that may throw.
 struct WPay: VPay {
     WPay() = default;
     WPay(long x): VPay(x) {}  // NOLINT
+    // (tag, value): lets a wrapper constructor that forwards ALL its arguments to T be viable for `W(intFlag, value)`
+    WPay(int /*tag*/, long x): VPay(x) {}
     WPay(const WPay& o): VPay((user_call(FID_COPY), static_cast<const VPay&>(o))) {}
     WPay(WPay&& o) noexcept: VPay(static_cast<VPay&&>(o)) {}
     // construction from the caller's object (not used by the unmodified library; lets the driver keep compiling
@@ -47,9 +61,9 @@ struct WPay: VPay {
         VPay::operator=(static_cast<const VPay&>(o));
         return *this;
     }
-    WPay& operator=(WPay&& o)
+    WPay& operator=(WPay&& o) noexcept
     {
-        user_call(FID_ASSIGN);
+        user_call_nothrow(FID_ASSIGN);
         VPay::operator=(static_cast<VPay&&>(o));
         return *this;
     }
@@ -69,13 +83,16 @@ struct WPay: VPay {
     }
 };
 
-// TPay: a trivially copyable payload whose equality is NOT bitwise: operator== compares v only, the driver
-// varies tag.  Its accesses are invisible like those of a plain long (payload kind 2, a plain kind for the model).
+// TPay: a trivially copyable payload whose equality is NOT bitwise and NOT reflexive: operator== compares v only
+// (the driver varies tag), and the value TPAY_NAN is unequal to everything, itself included (like a NaN).
+// Its accesses are invisible like those of a plain long (payload kind 2, a plain kind for the model); the
+// generator never uses TPAY_NAN as the expected value of a compare_exchange.
+constexpr long TPAY_NAN = 7;
 struct TPay {
     long v;
     long tag;
-    bool operator==(const TPay& o) const { return v == o.v; }
-    bool operator!=(const TPay& o) const { return v != o.v; }
+    bool operator==(const TPay& o) const { return v == o.v && v != TPAY_NAN; }
+    bool operator!=(const TPay& o) const { return !(*this == o); }
 };
 static_assert(std::is_trivially_copyable<TPay>::value, "TPay must be trivially copyable");
 }  // namespace vs
